@@ -73,15 +73,36 @@ fn script(n: usize) -> (bool, Vec<Step>, &'static str) {
             ],
             "flush",
         ),
-        _ => (
+        5 => (
             false,
             vec![("insert", Box::new(|p: &mut Pkg| p.insert_rows(Insert::into("Items").row(vec![Value::Int(1000), Value::from("late")]))))],
             "into_inner",
         ),
+        // tables whose serialised size lands on and around buffer sizes (4400 = just past 4 KiB
+        // at the last column, 8192 = exactly the container's stream buffer, 512 = one sector)
+        _ => (
+            false,
+            vec![
+                ("create_tables", Box::new(|p: &mut Pkg| {
+                    for name in ["Big", "Exact", "Sector"] {
+                        p.create_table(name, vec![Column::build("K").primary_key().int16(), Column::build("V").int16()])?;
+                    }
+                    Ok(())
+                })),
+                ("insert_big", Box::new(|p: &mut Pkg| {
+                    for (name, n) in [("Big", 1100), ("Exact", 2048), ("Sector", 128)] {
+                        let rows: Vec<Vec<Value>> = (0..n).map(|i| vec![Value::Int(i), Value::Int(i % 7)]).collect();
+                        p.insert_rows(Insert::into(name).rows(rows))?;
+                    }
+                    Ok(())
+                })),
+            ],
+            "flush",
+        ),
     }
 }
 
-pub const NUM_SCRIPTS: usize = 6;
+pub const NUM_SCRIPTS: usize = 7;
 
 struct Outcome {
     calls: usize,
